@@ -104,6 +104,9 @@ def _run(prop, tier, seed, replay, here, repo, env, binp, scratch, cfg, t0):
             continue
         if o["id"] in resid:
             continue
+        if o["status"] != "discharged" and o["id"] in kf_open:
+            knowns.append((o, kf_open[o["id"]]))
+            continue
         total += 1
         for s in o["solvers"]:
             by_backend[s] = by_backend.get(s, 0) + 1
@@ -112,9 +115,6 @@ def _run(prop, tier, seed, replay, here, repo, env, binp, scratch, cfg, t0):
         solver_time += o.get("time", 0)
         if o["status"] == "discharged":
             discharged += 1
-            continue
-        if o["id"] in kf_open:
-            knowns.append((o, kf_open[o["id"]]))
             continue
         violations.append((o, o["status"]))
     # locked clause obligations must still exist
